@@ -7,6 +7,7 @@ def run(ctx, rep):
     objmodel.rule_no_reflection(ctx, rep, "C03-R1")
     objmodel.rule_key_discipline(ctx, rep, "C03-R2")
     objmodel.rule_native_results_normalised(ctx, rep, "C03-R3")
+    objmodel.rule_no_none_into_script_values(ctx, rep, "C03-R3b")
     objmodel.rule_prototype_values(ctx, rep, "C03-R4")
     objmodel.rule_host_callable_surface(ctx, rep, "C03-R5")
     objmodel.rule_internal_iterators(ctx, rep, "C03-R6")
